@@ -3,7 +3,7 @@ from ..gen import Gen
 from ..unit import run_unit
 from ..units.loop import Loop
 
-PROP_FILES = []
+PROP_FILES = ["props/C12.v"]
 TECHNIQUE = "Coq proof (invariants by induction over arbitrary step-oracle traces) + exact differential correspondence of Solver.solve with a scripted step oracle"
 
 
